@@ -11,6 +11,7 @@ import Scico.Proofs.FlaxMap
 import Scico.Proofs.FlaxIter
 import Scico.Proofs.FlaxCkpt
 import Scico.Proofs.FlaxTrain
+import Scico.Proofs.FlaxDir
 
 namespace Scico.Props.C20
 open Scico.Flax
@@ -222,6 +223,26 @@ theorem C20_restore_latest {σ : Type} (k : Nat) (hk : 1 ≤ k) (ps : List (Nat 
   obtain ⟨hlat, hfind⟩ := find_latest_sorted (lastK k ps) (lastK_pairwise k ps hinc) hne'
   rw [lastK_getLast k hk ps hne] at hlat hfind
   simp only [restore, hlat, hfind]
+
+/-- ANY sequence of saves (any order, repetitions, any states) onto any well-formed directory (steps increasing, at most
+    `max_to_keep` entries — in particular the empty one), any `max_to_keep ≥ 1`: the directory stays well formed, and if it is not
+    empty `checkpoint_restore` returns exactly the state stored LAST in it, which is the one with the largest step —
+    whatever the passed-in state and flag. -/
+theorem C20_dir_invariant {σ : Type} (k : Nat) (hk : 1 ≤ k) (l : List (Nat × σ)) (hl : DirOk k l) (ps : List (Nat × σ))
+    (cur : σ) (ok : Bool) :
+    ∃ l', saveAll k (some l) ps = some l' ∧ l'.Pairwise (fun a b => a.1 < b.1) ∧ l'.length ≤ k ∧
+      ∀ hne : l' ≠ [], restore (some l') cur ok = .ok (l'.getLast hne).2 ∧ ∀ p ∈ l', p.1 ≤ (l'.getLast hne).1 := by
+  obtain ⟨l', hs, hok⟩ := dirOk_saveAll k hk ps l hl
+  refine ⟨l', hs, hok.1, hok.2, ?_⟩
+  intro hne
+  obtain ⟨hlat, hfind⟩ := find_latest_sorted l' hok.1 hne
+  refine ⟨by simp only [restore, hlat, hfind], ?_⟩
+  intro p hp
+  exact ((latest_eq_some l' _).mp hlat).2 p hp
+
+example : DirOk 3 ([] : List (Nat × String)) := ⟨List.Pairwise.nil, by decide⟩
+example : saveAll 3 (some []) [(5, "a"), (2, "b"), (7, "c"), (9, "d"), (9, "e"), (12, "f"), (3, "g")]
+    = some [(7, "c"), (9, "d"), (12, "f")] := by decide
 
 /-- Missing checkpoint handled as documented: no directory, or a directory without any checkpoint,
     returns the passed-in state when `ok_no_ckpt`, and is an error otherwise. -/
